@@ -113,7 +113,7 @@ PROPS['C06'] = dict(
 )
 PROPS['C10'] = dict(
     title='include',
-    units=['arms', 'depth'],
+    units=['arms', 'depth', 'wrap'],
     shims=['A-glue', 'A-path/fs', 'A-hashmap'],
     design='DESIGN.md 3/C10',
     technique='contract-based deductive verification (Verus) of the verbatim IncludeCompilerDirective arm incl. the include-path search loop; nested preprocessing as an uninterpreted function of named parameters',
@@ -123,7 +123,7 @@ PROPS['C10'] = dict(
 )
 PROPS['C11'] = dict(
     title='define table',
-    units=['arms', 'prologue', 'expand', 'rtmu'],
+    units=['arms', 'prologue', 'expand', 'rtmu', 'wrap', 'depth'],
     shims=['A-glue', 'A-hashmap', 'A-str'],
     design='DESIGN.md 3/C11',
     technique='contract-based deductive verification (Verus) of the verbatim `define / `undef / `undefineall arms and of the table adoption at include and expansion',
